@@ -327,6 +327,51 @@ func hashEngine(args []string, _ *bufio.Scanner, out *bufio.Writer) {
 						}
 					}
 				}
+				// the legacy (v1) JSON layout — schemeID / groupHash / metadata.beaconID — goes through the same decoder:
+				// same hash, and an embedded chain_hash that does not match the fields must be rejected there too
+				{
+					legacy := map[string]any{
+						"public_key":   hx(pointBytes(info.PublicKey)),
+						"period":       uint64(info.Period.Seconds()),
+						"genesis_time": info.GenesisTime,
+						"schemeID":     info.Scheme,
+						"groupHash":    hx(info.GenesisSeed),
+						"metadata":     map[string]any{"beaconID": info.ID},
+						"chain_hash":   info.HashString(),
+					}
+					if info.ID == "" {
+						delete(legacy, "metadata")
+					}
+					raw, _ := json.Marshal(legacy)
+					t := new(chain.Info)
+					if err := json.Unmarshal(raw, t); err == nil {
+						emit("EQ", cs+"/chain", "info-json-legacy-path", hx(t.Hash()))
+					} else {
+						emit("ERR", cs+"/chain", "info-json-legacy", err.Error())
+					}
+					for _, fld := range []string{"period", "genesis_time", "groupHash", "chain_hash", "public_key"} {
+						mm := map[string]any{}
+						for k, v := range legacy {
+							mm[k] = v
+						}
+						switch fld {
+						case "period":
+							mm[fld] = uint64(info.Period.Seconds()) + 1
+						case "genesis_time":
+							mm[fld] = info.GenesisTime + 1
+						case "groupHash", "chain_hash":
+							mm[fld] = flipHex(mm[fld].(string))
+						case "public_key":
+							mm[fld] = hx(pointBytes(sch.KeyGroup.Point().Pick(random.New())))
+						}
+						raw2, _ := json.Marshal(mm)
+						if err := json.Unmarshal(raw2, new(chain.Info)); err != nil {
+							emit("REJ", cs+"/chain", "json-legacy-tampered-"+fld, "rejected")
+						} else {
+							emit("REJ", cs+"/chain", "json-legacy-tampered-"+fld, "accepted")
+						}
+					}
+				}
 				if common.IsDefaultBeaconID(g.ID) {
 					emit("EQ", cs+"/chain", "id-default-vs-empty", hx(chain.NewChainInfo(alt).Hash()))
 				}
